@@ -361,7 +361,8 @@ func c11Unit(j *Job, u *JobUnit) error {
 							bad("partially_decoded_dispatched")
 							return
 						}
-						if strings.Contains(k, "zzUnknownKey") {
+						if strings.Contains(k, "zzUnknownKey") && !want[k] {
+							// (a message that IS a map - root map unwrap - takes the unknown member as an entry: delivered, not dropped)
 							bad("partially_decoded_dispatched")
 							return
 						}
